@@ -38,6 +38,7 @@ EXPLANATION = ("a: the reachable set R is computed from the public parse entry p
 FLOORS = {"entry_points": 9, "sites": 150}
 EXPLANATION += " b (added): for every recursion cycle, depth bound x sum of dev-profile frame sizes (read from the object file's .stack_sizes section) fits half of a 2 MiB stack; the depth bound is the constant of a recognised depth guard whose counter grows on every cycle and is never reset inside it, a reviewed bound, or the 4 KiB input bound."
 EXPLANATION += " a (added): operator impls of date/time types (chrono, std::time: `+`, `-` panic on overflow) are panic-capable sites; `split_at`, `finder(s, SET) + 1` (SET a constant list of one-byte characters, the finder shown to report only positions of SET members), `a.or_else(|| b)` of two such finders and `pos..pos+k` are discharged by rule; offsets handed to a private helper by its only caller are judged with the caller's argument values. b: the depth guard may sit in a private helper that takes the recursive function by value (spliced in, indirect call devirtualised)."
+EXPLANATION += ' b (time, added): a text-splitting evaluator that has recursed into the parts of one split does not go on to search another split of the same text (no path from a self-recursive call to a later call of a split finder): otherwise a failing operand doubles the work per level.'
 
 HERE = os.path.dirname(os.path.abspath(__file__))
 D = 40   # formatting depth for identity comparisons (no truncation)
@@ -957,8 +958,49 @@ def _short_sig(sig):
     return hashlib.sha1(sig.encode()).hexdigest()[:10]
 
 
+def _no_retry_after_recursion(P, R, reach):
+    """b (time). A text-splitting evaluator that has recursed into the parts of one split must answer from them; if it can go on
+    to look for another split of the *same* text, a failing operand makes every level evaluate its parts again under the next
+    split: the work doubles per level (`a*b + a*b + ..` with an unknown field: 16 terms take seconds, 20 exceed any watchdog).
+    Decided as: inside one activation no path leads from a self-recursive call to a later call of the split finder."""
+    n = 0
+    for name in sorted(reach):
+        f = P.fns[name]
+        if f.kind == "closure":
+            continue
+        rec = [c for c in f.calls() if c.bb in f.normal_blocks() and c.resolved == name]
+        if not rec:
+            continue
+        # split finders: crate functions returning Option<usize> that this function calls with its own text parameter
+        finders = [c for c in f.calls() if c.bb in f.normal_blocks() and c.resolved in P.fns and c.resolved != name
+                   and P.fns[c.resolved].locals[0][0].replace(" ", "") in ("std::option::Option<usize>", "Option<usize>")
+                   and boundary_summary(P, P.fns[c.resolved]) is not None]
+        if not finders:
+            continue
+        n += 1
+        bad = None
+        for r_ in rec:
+            if r_.target is None:
+                continue
+            after = f.reach(r_.target)
+            for fd in finders:
+                if fd.bb in after and not (f.loops() and any(fd.bb in lp["body"] and r_.bb in lp["body"] for lp in f.loops())):
+                    bad = (r_, fd)
+                    break
+            if bad:
+                break
+        if bad:
+            R.violate("b", "retry-after-recursion:%s" % f.short_name,
+                      "%s can reach another split search (%s at line %d) after it has already recursed into the parts of one split (line %d): when an operand fails, every level re-evaluates its parts under the next split - time grows exponentially with the number of terms" % (
+                          f.short_name, bad[1].resolved.rsplit("::", 1)[1], bad[1].line, bad[0].line), f, bad[0].line)
+        else:
+            R.hold("b", "%s answers from the parts of the first split it recursed into (no second split search of the same text afterwards)" % f.short_name, fn=f)
+    R.count("split_evaluators", n)
+
+
 def _recursion(P, R, reach):
     from rules.C03 import _sccs, _structural
+    _no_retry_after_recursion(P, R, reach)
     cg = P.callgraph()
     for scc in _sccs(reach, cg):
         if len(scc) == 1 and next(iter(scc)) not in cg.get(next(iter(scc)), ()):
